@@ -94,6 +94,8 @@ class QueueEvents(FnSpec):
         g["generate_sub_created_events"] = lambda ex, a, k, n: self.h_sub(ex, "created", a)
         g["InotifyEmitter.queue_event"] = self.h_queue
         g["InotifyEmitter.stop"] = self.h_stop
+        g["event_queue.put"] = self.h_direct_put
+        g["event_queue.put_nowait"] = self.h_direct_put
         return g
 
     def on_with(self, ex, cv, node, entering):
@@ -111,6 +113,10 @@ class QueueEvents(FnSpec):
     def h_queue(self, ex, recv, args, kw, node):
         ex.oblige("queue_event-with-emitter-lock-held", "emitter._lock" in ex.held, kind="lock")
         ex.emit("out", args[0])
+        return None
+
+    def h_direct_put(self, ex, recv, args, kw, node):
+        ex.oblige("frame[events reach the observer's queue only through queue_event (which alone applies the filter)]", False, kind="frame")
         return None
 
     def h_stop(self, ex, recv, args, kw, node):
@@ -189,6 +195,7 @@ class QueueEvents(FnSpec):
         H[(self.me.id, "_watch")] = watch
         H[(self.me.id, "_lock")] = VOpaque("lock", "emitter._lock")
         H[(self.me.id, "_event_filter")] = ex.fresh(TOpt(TSet(W.EW.EvTT.tys[0])), "event_filter")
+        H[(self.me.id, "_event_queue")] = VOpaque("event_queue")
         inactive = ex.choose(2, "emitter inactive (_inotify is None)") == 1
         H[(self.me.id, "_inotify")] = None if inactive else VOpaque("buffer")
         self.inactive = inactive
@@ -232,6 +239,8 @@ class QueueEvents(FnSpec):
         marks = [r[0] for r in rows if len(r) == 1]
         tag = f"{self.shape}:{self.kind or 'IN_MOVED_FROM+IN_MOVED_TO'}{'|ISDIR' if self.isdir else ''}{',full' if self.full else ''}{',recursive' if self.recursive else ''}{',root' if is_root else ''}"
         subn = self.sub[2].n if (self.sub is not None and ("SUB_MOVED" in marks or "SUB_CREATED" in marks)) else z3.IntVal(0)
+        if "nonrec" in self.want and not self.recursive:
+            ex.oblige(f"post[nonrec:{tag}: under a non-recursive watch nothing is synthesised for entries below the root's direct children]", self.sub is None)
         if "frame" in self.want:
             ex.oblige(f"post[frame:{tag}: the number of events handed to queue_event is fixed by the record alone]", out.n == len(fixed) + subn)
         if "table" in self.want:
